@@ -148,7 +148,13 @@ func Schema(md protoreflect.MessageDescriptor, filter func(protoreflect.FieldDes
 				n = i + 1
 			}
 		}
-		out[name] = J{"fields": fields, "oneofs": n}
+		nums := []any{}
+		for i := 0; i < md.Fields().Len(); i++ {
+			nums = append(nums, int(md.Fields().Get(i).Number()))
+		}
+		// nums lists every declared number of the real type (also the filtered-out ones), so that
+		// model-chosen "unknown" numbers are unknown to the real type as well
+		out[name] = J{"fields": fields, "oneofs": n, "nums": nums}
 		for _, m := range next {
 			walk(m)
 		}
@@ -399,4 +405,59 @@ func Fill(m protoreflect.Message, j J, w Wrap) {
 	if u := ints(j["u"]); len(u) > 0 {
 		m.SetUnknown(ToBytes(u))
 	}
+}
+
+// Normalize brings an abstract value (from TLC or from Project) into a canonical JSON shape:
+// map entries sorted by the JSON text of their key, empty containers unified.
+func Normalize(j any, md protoreflect.MessageDescriptor) J {
+	in := J{}
+	switch t := j.(type) {
+	case J:
+		in = t
+	}
+	out := J{"f": J{}, "u": ints(in["u"])}
+	if out["u"] == nil {
+		out["u"] = []int{}
+	}
+	fs, _ := in["f"].(J)
+	of := out["f"].(J)
+	for k, x := range fs {
+		n, _ := strconv.Atoi(k)
+		fd := md.Fields().ByNumber(protoreflect.FieldNumber(n))
+		if fd == nil {
+			of[k] = x
+			continue
+		}
+		switch {
+		case fd.IsMap():
+			var ps []any
+			for _, p := range asList(x) {
+				pj := asJ(p)
+				v := pj["v"]
+				if fd.MapValue().Message() != nil {
+					v = Normalize(v, fd.MapValue().Message())
+				} else {
+					v = ints(v)
+				}
+				ps = append(ps, J{"k": ints(pj["k"]), "v": v})
+			}
+			sort.Slice(ps, func(a, b int) bool { return keyString(ps[a].(J)["k"]) < keyString(ps[b].(J)["k"]) })
+			of[k] = ps
+		case fd.IsList():
+			var es []any
+			for _, e := range asList(x) {
+				if fd.Message() != nil {
+					es = append(es, Normalize(e, fd.Message()))
+				} else {
+					es = append(es, ints(e))
+				}
+			}
+			of[k] = es
+		case fd.Message() != nil:
+			of[k] = Normalize(x, fd.Message())
+		default:
+			of[k] = ints(x)
+		}
+	}
+	return out
 }
